@@ -287,7 +287,7 @@ RetEv(label, st, tok, tag, age, nage, h, err) ==
   [ ev |-> "ret", x |-> ex.x, t |-> now, t0 |-> ex.t0, err |-> err, panic |-> 0, neither |-> 0, both |-> 0,
     st |-> st, label |-> label, nlab |-> IF err = 1 THEN 0 ELSE 1, fc |-> IF label \in CacheLabels THEN "1" ELSE "",
     tok |-> tok, tag |-> tag, age |-> age, nage |-> nage, bodyok |-> 1, bodyerr |-> 0, e2eok |-> 1, hopin |-> 0,
-    stsame |-> 1, requnch |-> 1, h |-> h ]
+    stsame |-> 1, requnch |-> 1, scrib |-> 0, h |-> h ]
 
 FaultList == LET fs == SetToSeq(ex.flt) IN [i \in 1..Len(fs) |-> [n |-> fs[i], kind |-> "err"]]
 Pred(e) == [label |-> e.label, st |-> e.st, tok |-> e.tok, tag |-> e.tag, age |-> e.age, err |-> e.err, ops |-> ex.ops, ncalls |-> ex.ncalls]
